@@ -62,6 +62,20 @@ def programs():
     # a Map over several dotted keys of one section: every assignment overrides all of them (siblings are merged, not replaced)
     add("map-sibling-section-keys", prog({"k": "apply", "n": 9, "fn": "f1", "src": {"k": "map", "body": {"k": "tuple", "items": [O("S.X", dk="const", dv="dx"), O("S.Y", dk="const", dv="dy"), O("S")]},
                                           "iters": [["S.X", {"k": "list", "items": [C(1), C(2)]}], ["A", {"k": "list", "items": [C("a")]}], ["S.Y", {"k": "list", "items": [C(10)]}]]}}))
+    # a Map that pre-sets only PART of a section while its body reads the whole section, under a memoising dataset:
+    # the members the caller alone provides (S.Y) are part of every element's value
+    add("map-presets-part-of-a-section", prog({"k": "tuple", "items": [DS(1), DS(2)]},
+                                              d1={"args": [["m", {"k": "apply", "n": 41, "fn": "f1", "src": {"k": "map", "body": O("S"), "iters": [["S.X", {"k": "list", "items": [C(1), C(2)]}]]}}]]},
+                                              d2={"args": [["m", {"k": "apply", "n": 42, "fn": "f1", "src": {"k": "map", "body": {"k": "tuple", "items": [O("S"), O("A", dk="const", dv=0)]},
+                                                                                                          "iters": [["S.X.Q", O("L", dk="const", dv=[9])]]}}]], "form": "explicit"}))
+    # option names that are string prefixes of one another without being section and member (A / AB, S.X / S.XL):
+    # each is its own key - in lookups, in keys() and in the cache key
+    add("prefix-named-keys", prog({"k": "tuple", "items": [DS(1), {"k": "cached", "spec": {"k": "tuple", "items": [O("A", dk="const", dv=0), O("AB", dk="const", dv=0)]}}]},
+                                  d1={"args": [["a", O("A", dk="const", dv=0)], ["ab", O("AB", dk="const", dv=0)], ["x", O("S.X", dk="const", dv=0)], ["xl", O("S.XL", dk="const", dv="m")]]}))
+    # a template built with a parameter its text never mentions (the constructor only warns): the parameter is still
+    # evaluated, validated and keyed - so what it needs is part of what the template needs
+    add("template-unreferenced-parameter", prog({"k": "tuple", "items": [{"k": "tmpl", "text": "t{C}", "params": [["r", O("B")]]}, DS(1)]},
+                                                d1={"args": [["banner", O("E", dk="spec", dv={"k": "tmpl", "text": "{:p:}", "params": [["p", O("A", dk="const", dv="a")], ["q", O("S.Y")]]})]]}))
     # a key that is present with a null value is PRESENT: the default (and what the default reads) plays no part
     add("null-valued-option", prog({"k": "tuple", "items": [DS(1), {"k": "cached", "spec": O("C", dk="tmpl", dv="{S.X} t")}]},
                                    d1={"args": [["a", O("A", dk="spec", dv=O("B"))], ["c", O("E", dk="spec", dv=DS(2))]]},
@@ -242,6 +256,10 @@ def dictionaries():
         {"S": {"X": "{B}", "Y": 1}, "B": 2},
         {"S": {"X": "{T.X}"}, "T": {"X": "{A}"}, "A": "deep", "B": "b"},
         {"S": {"X": "{T.X}"}, "T": {"X": "{A}"}, "A": "deeper", "B": "b"},
+        {"A": 1, "AB": 1, "S": {"X": 2, "XL": "km"}},
+        {"A": 1, "AB": 2, "S": {"X": 2, "XL": "km"}},
+        {"A": 1, "AB": 2, "S": {"X": 2, "XL": "mi"}},
+        {"A": 1, "S": {"X": 2}},
         {"L": [1, 2]},
         {"L": ["x", "y"]},
         {"L": []},
